@@ -1211,7 +1211,7 @@ impl<'de> de::Deserializer<'de> for &mut Deserializer<'de> {
                         self.wire_type
                     )));
                 }
-                let value = visitor.visit_seq(Compound::new(
+                let mut access = Compound::new(
                     self,
                     Style::Struct {
                         expect,
@@ -1219,7 +1219,11 @@ impl<'de> de::Deserializer<'de> for &mut Deserializer<'de> {
                         expect_idx: 0,
                         wire_idx: 0,
                     },
-                ))?;
+                );
+                let value = visitor.visit_seq(&mut access)?;
+                // A tuple visitor stops after its own arity: skip the fields the wire record has beyond
+                // that, otherwise whatever follows is read from the middle of this record.
+                while de::SeqAccess::next_element::<de::IgnoredAny>(&mut access)?.is_some() {}
                 Ok(value)
             }
             _ => check!(false),
